@@ -31,6 +31,9 @@ CL = [
  ("hql","map_keys_tab","MAP KEYS TERMINATED BY '\t'"), ("hql","collection_items_semi","COLLECTION ITEMS TERMINATED BY ';'"), ("hql","location_semi","LOCATION 's3://b/p;v1'"),
  ("snowflake","comment_semi","COMMENT = 'a; b'"), ("hql","tblproperties_semi","TBLPROPERTIES ('k;1'='v;1')"), ("hql","fields_term_pipe","FIELDS TERMINATED BY '|'"),
  ("hql","lines_term_num","LINES TERMINATED BY 10"), ("hql","fields_term_num","FIELDS TERMINATED BY 124"), ("hql","map_keys_num","MAP KEYS TERMINATED BY 3"),
+ ("hql","clustered_sorted_rep","CLUSTERED BY (a) SORTED BY (a ASC, b ASC) INTO 4 BUCKETS"), ("bigquery","cluster_by_bq3","CLUSTER BY a, b, x"), ("hql","skewed_by_rep","SKEWED BY (a) ON (1, 5, 1)"),
+ ("hql","partitioned_by_rep","PARTITIONED BY (p1 string, p2 string)"), ("hql","tblproperties_rep","TBLPROPERTIES ('k1'='v', 'k2'='v')"), ("snowflake","with_tag_rep","WITH TAG (t1='x', t2='x')"),
+ ("ibm_db2","index_in_same","INDEX IN ts1"), ("snowflake","cluster_by_rep","CLUSTER BY (a, b, a)"),
  ("ibm_db2","in","IN ts1"), ("ibm_db2","index_in","INDEX IN ts2"), ("ibm_db2","organize_by","ORGANIZE BY ROW"),
 ]
 base = {}
